@@ -453,3 +453,14 @@ def _register_shared_round9():
 
 
 # _register_shared_round9() is called by the driver after this module is fully imported (no import cycles)
+
+
+# "the total pair count divided by the product of the total weights of the two samples": the sums of weights stored with the counts
+# are the weight sums of the trees of both patches (C01 unit on process_patch_pair)
+def _register_shared_round10():
+    from . import C01 as _C01
+    unit(P, "process_patch_pair", fuc=["yaw.correlation.measurements:process_patch_pair"],
+         cases=[dict(second=s, weighted=w) for s in ("binned", "unbinned") for w in (False, True)], trusted=["BinnedTrees.__iter__ (C07)"])(_C01.u_ppp)
+
+
+# _register_shared_round10() is called by the driver after this module is fully imported (no import cycles)
